@@ -144,6 +144,12 @@ func parseThis(graphBuilder *AuthorizationModelGraphBuilder, parentNode graph.No
 			curNode = graphBuilder.getOrAddNode(assignableUserset, assignableUserset, SpecificTypeAndRelation)
 		}
 
+		// a restriction that names no node (a userset restriction with an empty relation name) before any other one:
+		// there is nothing to draw the edge from
+		if curNode == nil {
+			continue
+		}
+
 		// de-dup types that are conditioned, e.g. if define viewer: [user, user with condX]
 		// we only draw one edge from user to x#viewer, but with two conditions: none and condX
 		graphBuilder.upsertEdge(curNode, parentNode, DirectEdge, "", directlyRelatedDef.GetCondition())
